@@ -130,6 +130,48 @@ def replaceOuter (n : Name) (as : List Attr) : Nat → List Tok → List Tok
   | d + 2, .stop m :: ts => .stop m :: replaceOuter n as (d + 1) ts
   | d, t :: ts => t :: replaceOuter n as d ts
 
+/-- `getIDTyp` of session.go: scan the attributes, remember the last `id` and `type` seen, stop
+as soon as both have been seen; result: index of the id attribute, id, type -/
+def getIDTyp : List Attr → Nat → Option Nat → Bool → String → String → Option Nat × String × String
+  | [], _, idIdx, _, id, typ => (idIdx, id, typ)
+  | a :: as, i, idIdx, seenTyp, id, typ =>
+    let idIdx' := if a.name.loc == "id" then some i else idIdx
+    let id' := if a.name.loc == "id" then a.value else id
+    let seenTyp' := seenTyp || a.name.loc == "type"
+    let typ' := if a.name.loc == "type" then a.value else typ
+    if idIdx'.isSome && seenTyp' then (idIdx', id', typ') else getIDTyp as (i + 1) idIdx' seenTyp' id' typ'
+
+def setValueAt : List Attr → Nat → String → List Attr
+  | [], _, _ => []
+  | a :: as, 0, v => { a with value := v } :: as
+  | a :: as, i + 1, v => a :: setValueAt as i v
+
+/-- the id bookkeeping of `SendIQ` / `SendMessage` / `SendPresence`: an id attribute is
+appended when there is none and an empty one is filled with a random id -/
+def ensureId (fresh : String) (as : List Attr) : List Attr :=
+  match getIDTyp as 0 none false "" "" with
+  | (none, _, _) => as ++ [⟨⟨"", "id"⟩, fresh⟩]
+  | (some i, id, _) => if id == "" then setValueAt as i fresh else as
+
+inductive Kind | iq | message | presence
+  deriving DecidableEq, Repr
+
+def Kind.loc : Kind → String
+  | .iq => "iq" | .message => "message" | .presence => "presence"
+
+def kindName (k : Kind) (n : Name) : Bool :=
+  n.loc == k.loc && (n.space == "" || n.space == nsClient || n.space == nsServer)
+
+inductive StanzaErr | notStart | wrongKind
+  deriving DecidableEq, Repr
+
+/-- `SendIQ`/`SendMessage`/`SendPresence` up to the call of `SendElement`: the tokens handed to
+the encoder (whether the call then waits for a reply does not change what is written) -/
+def stanzaSendToks (k : Kind) (fresh : String) : List Tok → Except StanzaErr (List Tok)
+  | .start n as :: ts =>
+    if kindName k n then .ok (sendElementToks n (ensureId fresh as) (inner 0 ts)) else .error .wrongKind
+  | _ => .error .notStart
+
 /-- tokens reaching the underlying `xml.Encoder` for a call on a fresh (depth 0) encoder -/
 def wireToks (cfg : Cfg) (fresh : String) (ts : List Tok) : List Tok := (encode cfg fresh 0 ts).2
 
